@@ -28,6 +28,8 @@ CLAIMS = {
          "exhaustive enumeration of timing sequences on the real code under a virtual clock", "Trusted base: virtual clock shim; a failure exactly Period old is accepted either way; gap alphabet as listed."),
  "C10": ("model_checking", "Fault-point enumeration on the real node: for supervision trees (each supervisor type, nested supervisors, pool, application {supervisor, worker}, node {tree, free process}) one Kill of every member is placed at every scheduling point (delay bound 1; 2 in the thorough tier) of the steady state, an ongoing restart, an ongoing shutdown, ApplicationStop/StopForce and Node.Stop; start-up failures of every member; orphan oracle at quiescence and liveness snapshot at the moment a graceful stop returns.", "3 C10",
          "fault-point enumeration = stateless schedule enumeration with a low-priority one-operation fault thread", SCHED_NOTE),
+ "C11": ("model_checking", "Complete enumeration of a value space: 30 leaf types with the boundary values of the statement (string lengths 0/1/255/256/65533..65536, atoms 254..256, errors incl. registered sentinels, wrapped, '%' texts and 32767/32768/65535/65536 bytes, binaries around 4096 and 65536, extreme numbers, +-0, Inf, NaN payloads, extreme and located times, registered structs, named types, a custom marshaler) closed twice under []T, [0..2]T, map[string]T, map[T]string, []any and struct{A any} with nil and empty at every collection position, x 5 cache configurations built by the real handshake code from an introduction that travelled through EDF, plus a type registered after the introduction. Oracle: Encode error = rejection; otherwise Decode succeeds, consumes every byte, same dynamic type, equal value (NaN by bits, nil != empty except []byte), registered sentinels identical where the error cache is negotiated.", "3 C11",
+         "exhaustive small-scope input enumeration on the real codec", "Trusted base: the equality function of the harness; values outside the boundary alphabet and type nesting deeper than two levels are not covered."),
  "C12": ("model_checking", "Two real nodes joined by in-memory links after the real handshake. Input enumeration: 18 payload sizes (0..70000, around every buffer doubling and the compression threshold) x {none,gzip,zlib,lzw} x {pid,name,alias} x {send,call,important}; peer max-message-size boundaries; EVERY cut of one and of two back-to-back frames into <=3 reads. Schedule enumeration: two concurrent senders over 1-2 pooled links, important sends with remote refusal reasons and traffic in the other direction, and a receive-queue kernel (recorded frames trickling into a stand-alone receiving connection, preemption bound 2). Oracle: received exactly once by the addressee with the true sender and an equal payload, own reply, truthful important result.", "3 C12",
          "exhaustive input/segmentation enumeration + stateless schedule enumeration on two real nodes", SCHED_NOTE + " The two nodes run in one process and are joined by in-memory links (vconn) whose reads, holds, cuts and read sizes the harness owns; the real handshake, protocol, flusher and network table code run unmodified; real TCP behaviour (kernel buffering, RST vs FIN) is not modelled."),
  "C13": ("model_checking", "Two real nodes, pool of 1-2 links with a harness-held (slow) link in every position, sender and receiver process ids covering the residue classes 0 and non-0 of id%255 (1001, 1019, 1020), compressed/uncompressed mixes, a link joining between two sends, and the receive-queue kernel; every schedule within the delay bound; oracle: sequence numbers of one pair arrive in order.", "3 C13",
